@@ -32,6 +32,11 @@ CLAIMED["C03"] = ("E-scaled+E-elastic", "All six comparison operators on generat
 CLAIMED["C04"] = ("E-scaled", "Generated conversion kernels between scaled_integer instantiations, plain integers and float/double/long double: integer results compared online with the exact truncated quotient (static_cast and constructor must agree), "
                   "floating results logged and judged offline with exact rationals (nearest-even for scaled->float, truncation for float->scaled, round-trip identity), from_rep/to_rep and wrap/unwrap inverses.", "DESIGN.md §4 C04",
                   "sanitizer-instrumented execution judged online by an exact 256-bit oracle and offline by a python Fraction checker over the recorded event log")
+CLAIMED["C08"] = ("E-round", "rounding_integer division (and _impl::divide<Tag>) for every rounding tag over generated operand-type pairs: 8x8-bit pairs exhaustively (all quadrants and ties), boundary lattices, seeded exact ties and near-ties for wider types, "
+                  "compared with the exact quotient rounded by the mathematical definition of the mode; all other operators compared with the built-in ones.", "DESIGN.md §4 C08", None)
+CLAIMED["C09"] = ("E-round", "Generated narrowing conversions under the four rounding tags: scaled_integer -> coarser scaled_integer (convert<> and the rounding_integer-rep route) judged online on 256-bit integers, float/double/long double -> integer and scaled_integer "
+                  "(convert<> and constructors) logged and judged offline with exact rationals; sources include every tie of the destination lattice with float neighbours, limits and values where +0.5 is inexact.", "DESIGN.md §4 C09",
+                  "sanitizer-instrumented execution judged online by an exact 256-bit oracle and offline by a python Fraction checker over the recorded event log")
 PLANNED = {}
 
 
